@@ -41,7 +41,7 @@ PROBES = ['zero-size-array-element', 'deep-nesting', 'unterminated-container', '
           'lying-body-length', 'truncated-then-closed', 'bitflip-survived-as-message',
           'exception-closed-only-that-connection', 'other-peer-call-completed-after-fault',
           'client-pending-calls-failed-on-drop', 'hostile-variant-signature', 'unknown-message-type',
-          'wrong-header-field-type', 'budget-margin-over-10x', 'lying-string-length', 'lying-unix-fds-count']
+          'wrong-header-field-type', 'budget-margin-over-10x', 'lying-string-length', 'lying-unix-fds-count', 'large-header-body-dribbled']
 COMPONENTS = {
     'real': ['txdbus.message.parseMessage (counting pass-through wrapper)', 'txdbus.marshal.unmarshal*',
              'txdbus.protocol framing', 'txdbus.bus.Bus / BusProtocol', 'txdbus.client.DBusClientConnection'],
@@ -55,6 +55,7 @@ ASSUMPTIONS = ['work is measured in executed Python source lines, not bytes copi
 TOOL = 4
 BUDGET_A = 20000
 BUDGET_B = 200
+BUDGET_READ = 400
 NODE_FACTOR = 2
 
 HOSTILE_SIGS = [
@@ -139,7 +140,7 @@ def raw_message(mtype, serial, fields, sig, body_bytes, little=True, flags=0, bo
 def mutate(ds, sim, little_serial):
     """-> (kind, bytes to write, close_after)"""
     serial = little_serial
-    kind = ds.weighted([3, 2, 2, 2, 1.5, 5, 1.5, 1, 3, 1.5])
+    kind = ds.weighted([3, 2, 2, 2, 1.5, 5, 1.5, 1, 3, 1.5, 0.6])
     base = gen.random_message(ds, serial, mtypes=(1, 4, 2, 3), maxsig=3)
     if rc.F_DESTINATION in base.fields:
         base.fields[rc.F_DESTINATION] = 'org.freedesktop.DBus'
@@ -229,6 +230,17 @@ def mutate(ds, sim, little_serial):
         f = {rc.F_PATH: '/h', rc.F_MEMBER: 'M', rc.F_INTERFACE: 'org.sim.H',
              rc.F_DESTINATION: 'org.freedesktop.DBus'}
         return 'string-length', raw_message(ds.pick([4, 1]), serial, f, sig, body, little), False
+    if kind == 10:
+        # a well-formed message with a large header (unknown field codes are legal and skipped)
+        # whose body then arrives a byte at a time: the work must stay proportional to the
+        # bytes, not to reads x header size
+        sim.probe('large-header-body-dribbled')
+        nf = 150 + ds.choose(150)
+        extra = [(100 + (i % 100), 's', 'x' * 6) for i in range(nf)]
+        blen = 400 + ds.choose(600)
+        f = {rc.F_PATH: '/h', rc.F_MEMBER: 'M', rc.F_INTERFACE: 'org.sim.H'}
+        body = struct.pack('<I', blen) + b'\x07' * blen
+        return 'dribble', raw_message(4, serial, f, 'ay', body, True, extra=extra), False
     if kind == 9:
         # a unix_fds header that declares descriptors which were never sent
         sim.probe('lying-unix-fds-count')
@@ -285,6 +297,9 @@ def guarded_deliver(sim, counter, pipe, n, delivered, what):
     exception (or None)"""
     import tracemalloc
     delivered[0] += n
+    if len(delivered) == 1:
+        delivered.extend([0, 0])         # steps used so far, reads so far
+    delivered[2] += 1
     limit = BUDGET_A + BUDGET_B * delivered[0]
     tracemalloc.start(1)
     base = 0
@@ -298,6 +313,16 @@ def guarded_deliver(sim, counter, pipe, n, delivered, what):
                         'a delivery of %d bytes (%d so far on this connection) exceeded %d '
                         'interpreter steps; last mutation: %s' % (n, delivered[0], limit, what[0]))
     used = counter.stop()
+    delivered[1] += used
+    # amortised: the whole stream so far costs a constant per read plus a constant per byte
+    cum = BUDGET_A + BUDGET_READ * delivered[2] + BUDGET_B * delivered[0]
+    counter.max_cum = max(getattr(counter, 'max_cum', 0.0), delivered[1] / float(cum))
+    if delivered[1] > cum:
+        tracemalloc.stop()
+        raise Violation('C05/step-budget', 'cumulative: ' + (what[0] or 'valid traffic'),
+                        '%d bytes in %d reads cost %d interpreter steps in total (budget %d: '
+                        'constant per read + constant per byte); last mutation: %s'
+                        % (delivered[0], delivered[2], delivered[1], cum, what[0]))
     peak = tracemalloc.get_traced_memory()[1] - base
     tracemalloc.stop()
     if peak > MEM_A + MEM_B * delivered[0] or isinstance(err, MemoryError):
@@ -349,7 +374,8 @@ def run_bus(ctx, counter):
             g['proto'].bus_call('GetId')
         # deliver: the hostile pipe under the budget, everything else plainly
         steps = 0
-        while steps < 400:
+        dribble = struct.unpack_from('<I', data, 4)[0] if i in fault_at and what[0] == 'dribble' else 0
+        while steps < 400 + 2 * dribble:
             steps += 1
             pipes = net.deliverable(sim)
             if not pipes:
@@ -361,6 +387,10 @@ def run_bus(ctx, counter):
             pp = pipes[ds.choose(len(pipes))]
             if pp is pipe:
                 n, bc = net.chunk_size(ds, pp, sizew)
+                if dribble:
+                    # header in large reads, then the body a byte at a time
+                    n = min(len(pp.buf) - dribble, 512) if len(pp.buf) > dribble else 1
+                    bc = 'mid'
                 if bc != 'all':
                     sim.nontrivial = True
                     sim.faults['split'] += 1
@@ -445,9 +475,13 @@ def run_client(ctx, counter):
             daemon.signal('/bg', 'org.sim.Bg', 'Tick', 's', ['n%d' % i])
             nvalid += 1
         steps = 0
-        while pipe.buf and rig.conn.a.state == net.OPEN and steps < 400:
+        dribble = struct.unpack_from('<I', data, 4)[0] if i in fault_at and what[0] == 'dribble' else 0
+        while pipe.buf and rig.conn.a.state == net.OPEN and steps < 400 + 2 * dribble:
             steps += 1
             n, bc = net.chunk_size(ds, pipe, sizew)
+            if dribble:
+                n = min(len(pipe.buf) - dribble, 512) if len(pipe.buf) > dribble else 1
+                bc = 'mid'
             if bc != 'all':
                 sim.nontrivial = True
                 sim.faults['split'] += 1
